@@ -169,7 +169,7 @@ class Engine:
         for j in range(k - 1, -1, -1):
             e = log[j]
             if e[0] == 'unknown':
-                if e[1] == region:
+                if e[1] in (region, '*'):
                     return [(('unknown',), st)]
                 continue
             dst = e[1]
@@ -1480,7 +1480,33 @@ class Engine:
         finally:
             self.loop_depth -= 1
 
+    def loop_writes_memory(self, n):
+        """does the loop contain a store through a subscript / pointer or a call that may write memory?"""
+        for x in walk(n):
+            k = x.get('k')
+            if k in ('BinaryOperator', 'CompoundAssignOperator') and (x.get('op') or '').endswith('=') and \
+                    x.get('op') not in ('==', '!=', '<=', '>='):
+                lhs = strip_all_casts(children(x)[0])
+                if lhs.get('k') in ('ArraySubscriptExpr',) or (lhs.get('k') == 'UnaryOperator' and lhs.get('op') == '*') \
+                        or lhs.get('k') in CALL_KINDS:
+                    return True
+            elif k == 'UnaryOperator' and x.get('op') in ('++', '--'):
+                tgt = strip_all_casts(children(x)[0])
+                if tgt.get('k') in ('ArraySubscriptExpr',) or (tgt.get('k') == 'UnaryOperator' and tgt.get('op') == '*'):
+                    return True
+            elif k in CALL_KINDS:
+                callee = (x.get('callee') or '').split('::')[-1]
+                if callee in ('memcpy', 'memmove', 'memset', 'strcpy', 'strncpy', 'strcat', 'sprintf', 'snprintf',
+                              'vsnprintf', 'copy', 'fill'):
+                    return True
+        return False
+
     def loop_(self, n, states, func):
+        if self.cfg.get('track_content') and self.loop_writes_memory(n):
+            # the body is analysed for one arbitrary iteration only: the final content of whatever it
+            # writes is not described by the log
+            for s0 in states:
+                s0.wlog.append(('unknown', '*'))
         k = n['k']
         kids = n.get('c', [])
         init = cond = inc = body = None
@@ -2023,19 +2049,27 @@ def m_string_method(eng, n, st, func, want):
         out = []
         for vals, s1 in _ev_all(eng, real, st, func):
             name = 'str@%s#%d' % (n['id'], next(eng.counter))
+            content = None
             if len(vals) == 2 and isinstance(vals[0], Ptr) and isinstance(vals[1], Lin):
                 eng.access(s1, vals[0], vals[1], 'std::string( ptr, n) source', n, func)
                 s1.fields[(name, 'length')] = vals[1]
+                s1.fields[(name, 'source')] = vals[0]
+                content = ('copy', Ptr(name + '.data', 0), vals[0], vals[1])
             elif len(vals) == 1 and isinstance(vals[0], Ptr):
                 base = s1.fields.get((vals[0].region, 'strlen'))
                 s1.fields[(name, 'length')] = (base - vals[0].off) if base is not None else \
                     eng.fresh('len', s1, 'unsigned long')
+                content = ('copy', Ptr(name + '.data', 0), vals[0], s1.fields[(name, 'length')])
             elif len(vals) == 1 and isinstance(vals[0], Obj):
                 s1.fields[(name, 'length')] = eng.string_len(s1, vals[0].name)
+                content = ('copy', Ptr(name + '.data', 0), Ptr(vals[0].name + '.data', 0), s1.fields[(name, 'length')])
             elif len(vals) == 2 and isinstance(vals[0], Lin):
                 s1.fields[(name, 'length')] = vals[0]
+                content = ('fill', Ptr(name + '.data', 0), vals[1], vals[0])
             else:
                 s1.fields[(name, 'length')] = eng.fresh('len', s1, 'unsigned long')
+            if content is not None:
+                eng.log_write(s1, content)
             ln = s1.fields[(name, 'length')]
             s1.regions[name + '.data'] = ln + 1
             eng.add_nul(s1, name + '.data', ln)
@@ -2086,9 +2120,21 @@ def m_string_method(eng, n, st, func, want):
                     if cnt is not None:
                         s3.assume(le(rl, cnt))
                     s3.fields[(name, 'length')] = rl
-                    s3.regions[name + '.data'] = rl + 1
-                    eng.add_nul(s3, name + '.data', rl)
-                    out.append((Obj(name, 'std::string'), s3))
+                    # exactly min( n, size() - pos) characters
+                    if cnt is not None:
+                        parts = []
+                        for first, s4 in eng.compare('<=', cnt, ln - pos, s3, n, func):
+                            s4.assume(eq(rl, cnt if first else ln - pos))
+                            parts.append(s4)
+                    else:
+                        s3.assume(eq(rl, ln - pos))
+                        parts = [s3]
+                    for s4 in parts:
+                        s4.fields[(name, 'length')] = rl
+                        s4.regions[name + '.data'] = rl + 1
+                        eng.add_nul(s4, name + '.data', rl)
+                        eng.log_write(s4, ('copy', Ptr(name + '.data', 0), Ptr(ov.name + '.data', pos), rl))
+                        out.append((Obj(name, 'std::string'), s4))
         else:
             return None
     return out
